@@ -44,7 +44,7 @@ REACH = {
         "fault_drop_h2n", "fault_corrupt_h2n", "fault_dup_h2n", "fault_stall_h2n",
         "fault_drop_n2h", "fault_corrupt_n2h", "fault_dup_n2h", "fault_stall_n2h",
         "window_1", "window_2", "window_3", "send_raised", "reactive_send_from_upper_layer_callback",
-        "reads_coalesced", "duplicate_in_one_read"]
+        "reads_coalesced", "duplicate_in_one_read", "reset_in_mid_session", "old_session_frame_after_host_rst"]
     for t in ("quick", "thorough")
 }
 SHARD_TIMEOUT = {"quick": 900, "thorough": 3600}
@@ -169,10 +169,18 @@ def run_case(case):
                 trace.append(("h_cancel_req", clock(), i))
                 tasks[i].cancel()
 
+        def do_reset():
+            # the host asks for a reset in mid-session (as Gateway.reset() does); whatever is still in
+            # the pipe from the old session arrives between its RST and the RSTACK
+            trace.append(("h_reset_request", clock()))
+            proto.send_reset()
+
         def on_frame(idx):
             for c in cancels:
                 if c[1] == idx:
                     loop.io_at(clock() + c[2], do_cancel, c[0])
+            if case.get("reset_at") is not None and idx == case["reset_at"][0]:
+                loop.io_at(clock() + case["reset_at"][1], do_reset)
 
         line.on_frame = on_frame
 
@@ -254,6 +262,22 @@ def judge(case, trace, info):
     hp_all = info.get("hp_all", hp)
     n_up = [e[2] for e in trace if e[0] == "n_up"]
     h_up = [e[2] for e in trace if e[0] == "h_up"]
+    if case.get("reset_at") is not None:
+        # Across a reset the two ends are for a while in different sessions (the NCP restarts at the
+        # RST, the host at the RSTACK, and the line is FIFO so every old-session frame reaches the host
+        # before the RSTACK): acknowledgements may then be attributed to the wrong session by ANY
+        # implementation, so completion and loss are not judged here.  What the host can and must do
+        # is keep its old numbering until the RSTACK arrives, so that an old-session retransmission of
+        # a frame it already handed up is still recognised as a duplicate.
+        seen = set()
+        for p in h_up:
+            if p in seen:
+                bad.append(("C01/ncp-to-host/duplicate", f"host upper layer received payload {p[:6]!r} twice around a host-requested reset: "
+                            f"{[q[:6] for q in h_up]}"))
+                break
+            seen.add(p)
+        return bad, {"cancelled_delivered": 0, "raised": sum(1 for e in trace if e[0] == "h_exc"),
+                     "host_failed": any(e[0] == "h_reset" and e[2] != 0x0B for e in trace)}
     ok, why = is_subsequence_unique(n_up, hp)
     if not ok:
         bad.append((f"C01/host-to-ncp/{why[0]}", f"NCP upper layer received {why[0]} payload {why[1][:6]!r}: "
@@ -285,7 +309,7 @@ def judge(case, trace, info):
     # them random) and a clean line afterwards, no send may be lost - in particular not because
     # *another* caller was cancelled
     nfaults = sum(1 for v in case.get("vector", ()) if v != "ok")
-    if not case.get("rate") and nfaults <= 3:
+    if not case.get("rate") and nfaults <= 3 and case.get("reset_at") is None:
         cancelled = {e[2] for e in trace if e[0] in ("h_cancel_req", "h_cancelled")}
         for i, p in enumerate(hp_all):
             if i in cancelled or p not in hp:
@@ -371,6 +395,13 @@ def run_one(acc: Acc, case):
     acc.hit("window_%d" % case.get("window", 1))
     if case.get("chunking") == "coalesce":
         acc.hit("reads_coalesced")
+    t_rr = next((e[1] for e in trace if e[0] == "h_reset_request"), None)
+    if t_rr is not None:
+        acc.hit("reset_in_mid_session")
+        t_ack = next((e[1] for e in trace if e[0] == "h_reset" and e[1] >= t_rr), None)
+        if t_ack is not None and any(e[0] == "line" and e[2] == "n2h" and e[3] and e[3][0] == "D" and e[1] < t_rr for e in trace) and \
+                t_ack - t_rr > 0.01:
+            acc.hit("old_session_frame_after_host_rst")
     if case.get("dup1") and any(e[4] == "dup" for e in lines):
         acc.hit("duplicate_in_one_read")
     if info.get("reactive_sends"):
@@ -423,6 +454,16 @@ def gen_cases(tier, seed):
                         cases.append(dict(nh=4, nn=nn, burst=4, nburst=2, vector=list(vec), window=2,
                                           chunking="coalesce" if (at + who) % 4 == 3 else "whole", dup1=bool(at % 2),
                                           seed=seed, cancel=[[who, at, delay]], traffic="cancel"))
+    # a host-requested reset in mid-session (NCP traffic only before it, both ways after it): the
+    # old session's leftovers must not be handed up again
+    for vec in itertools.product(FAULTS, repeat=4):
+        hv = sum((i + 1) * FAULTS.index(v) for i, v in enumerate(vec))
+        if tier == "quick" and hv % 2:
+            continue
+        for at in range(1, 6):
+            for delay in (0.0, 0.5, 1.7, 2.6):
+                cases.append(dict(nh=0, nn=2, nburst=1, reactive=2, ncp_reactive=1, vector=list(vec), window=1 + (at + hv) % 2,
+                                  chunking="whole", seed=seed, reset_at=[at, delay], traffic="midreset", gap=0.3))
     # long random runs
     rnd = random.Random(seed)
     nlong = 48 if tier == "quick" else 320
